@@ -41,6 +41,26 @@ IDENT = {
     "ENTITYget_CORBAname", "ENTITYput_CORBAname", "get_aggregate_type", "get_attribute_number", "utype_member",
     "TYPEget_ancestor", "GetAggrElemType", "TYPEget_name_wo_prefix", "SelectName_p", "EXPRto_python", "get_local_attribute_name",
 }
+_NP = ("np points at the last character of the name that snprintf(fnm, MAX_LEN, \"%s.h\", ..) has just produced "
+       "(2 <= strlen(fnm) <= 239), so the two-character suffix plus terminator ends at most at fnm[240]")
+_HEAP = ("ERROR_with_lines is flushed (reset to 0) as soon as it reaches ERROR_MAX_ERRORS = 100 in the same function, so heap[] "
+         "indices stay within 1..100 of heap[101]")
+_ENV = "EXPRESS_PATH comes from the environment, which is outside the property's quantifier (bytes of the EXPRESS file)"
+E2_EXC = {
+    "E2|src/exp2cxx/classes_wrapper.cc|SCHEMAprint|sprintf->L7:fnm": _NP,
+    "E2|src/exp2cxx/classes_wrapper.cc|EXPRESSPrint|sprintf->L3:fnm#1": _NP,
+    "E2|src/exp2cxx/classes_wrapper.cc|EXPRESSPrint|sprintf->L3:fnm#3": _NP,
+    "E2|src/exp2python/src/classes_wrapper_python.cc|SCHEMAprint|sprintf->L6:fnm": _NP,
+    "E2|src/express/error.c|ERRORvreport_with_symbol|store->heap": _HEAP,
+    "E2|src/express/error.c|ERROR_flush_message_buffer|store->heap": _HEAP,
+    "E2|src/express/error.c|ERROR_flush_message_buffer|store->heap#1": _HEAP,
+    "E2|src/express/express.c|EXPRESS_PATHinit|strcpy->L1:dir.full": _ENV,
+    "E2|src/express/express.c|EXPRESS_PATHinit|sprintf->L1:dir.full": _ENV,
+    "E2|src/exp2cxx/classes_wrapper.cc|SCHEMAprint|sprintf->L5:schnm":
+        "identifier-driven: \"Sdai\" + upper-cased schema name (<= 240 from StrToUpper's static buffer) into schnm[241]: safe for schema names <= 236 (covered by the identifier-length finding)",
+    "E2|src/exp2cxx/classes_type.c|EnumCElementName|strncat->L2:buf":
+        "identifier-driven: \"<enum type name>__\" + strncat of the item name: safe for names <= 4095 (covered by the identifier-length finding)",
+}
 CFG = {
     "entries": ENTRIES,
     "entry_components": {"express", "exppp", "exp2cxx", "exp2python", "scanner"},
@@ -50,9 +70,15 @@ CFG = {
     "exclude_files": ("express/hash.c", "express/generated/expscan.c", "exp2cxx/trace_fprintf.c"),
     "param_is_ident_components": ("exp2cxx", "exp2python", "exppp", "scanner"),
     "heap_sites": False,
-    "e2_exceptions": {},
+    "param_ident": {("EXPRESSfind_schema", "name")},
+    "e2_exceptions": E2_EXC,
     "terminators_allowed": {},
 }
+_T = os.path.join(os.path.dirname(__file__), "..", "tables", "c06_e2_sites.json")
+if os.path.exists(_T):
+    _ref = json.load(open(_T))
+    CFG["e2_reference"] = _ref["sites"]
+    CFG["lstar_floor"] = _ref["lstar_floor"]
 
 
 def r1_cursors(prog, res):
@@ -77,6 +103,40 @@ def r1_cursors(prog, res):
                 if b["k"] == "Ref" and b.get("dk") == "global" and array_len(f.ty(b)) and i is not None and \
                         i["k"] == "Ref" and i.get("dk") == "global":
                     cursors.setdefault(i["n"], (b["n"], array_len(f.ty(b)), "index"))
+    # cursors all of whose writes through the cursor are themselves guarded by a bound test
+    writes_guarded = set()
+    for cname, (arr, N, kind) in cursors.items():
+        all_ok = True
+        any_w = False
+        for f in prog.all_functions():
+            if f.component == "test":
+                continue
+            for x in f.walk():
+                if x["k"] not in ("Assign", "CompoundAssign"):
+                    continue
+                lhs = strip(x["ch"][0])
+                uses = False
+                for y in walk(lhs):
+                    if y["k"] == "Subscript":
+                        b, i = strip(y["ch"][0]), strip(y["ch"][1])
+                        if b["k"] == "Ref" and b.get("n") == arr and any(z["k"] == "Ref" and z.get("n") == cname for z in walk(i)):
+                            uses = True
+                    if y["k"] == "Member" and y.get("arrow") and kind == "pointer":
+                        b = strip(y["ch"][0])
+                        if b is not None and b["k"] == "Ref" and b.get("n") == cname:
+                            uses = True
+                if not uses:
+                    continue
+                any_w = True
+                g = False
+                for c, pol in known_facts(f, x):
+                    for y in walk(c):
+                        if y["k"] == "Binary" and y["op"] in ("<", "<=", ">", ">=") and any(z["k"] == "Ref" and z.get("n") == cname for z in walk(y)):
+                            g = True
+                if not g:
+                    all_ok = False
+        if any_w and all_ok:
+            writes_guarded.add(cname)
     n = 0
     counters = {}
     for f in prog.all_functions():
@@ -102,6 +162,8 @@ def r1_cursors(prog, res):
             c0 = counters.get(base, 0)
             counters[base] = c0 + 1
             key = base if c0 == 0 else "%s#%d" % (base, c0)
+            if not guarded and tgt["n"] in writes_guarded:
+                guarded = True
             res.add("R1c.cursor_bound", key, f.where(x), guarded,
                     "increment of `%s` (cursor into %s[%d]) is guarded by a bound test" % (tgt["n"], arr, N) if guarded else
                     "`%s` walks %s[%d] and is incremented without any bound test: nesting deeper than %d writes past the array"
@@ -173,6 +235,60 @@ def r2_escape_then_free(prog, res):
     res.info["r2_free_sites_with_escapes"] = n
 
 
+def r5_recursion_marks(prog, res):
+    """A recursive descent that is guarded by a test of a field of the node it is about to visit must set that
+    field on its own node before descending; otherwise a cyclic graph (subtype / select / scope cycles are
+    accepted by the parser and only diagnosed later) recurses without bound."""
+    n = 0
+    counters = {}
+    for f in prog.all_functions():
+        if f.component == "test" or f.cfg is None or not f.params:
+            continue
+        rec = [c for c in f.calls() if c.get("fk") == f.key]
+        for c in rec:
+            args = call_args(c)
+            guards = []
+            for ai, a in enumerate(args):
+                ap = access_path(a)
+                if ap is None or ai >= len(f.params):
+                    continue
+                for cn, pol in known_facts(f, c):
+                    cn0 = strip(cn)
+                    if cn0["k"] == "Binary" and cn0["op"] in ("==", "!="):
+                        for side in cn0["ch"]:
+                            sp = access_path(side)
+                            if sp and sp != ap and sp.startswith(ap + "."):
+                                guards.append((ai, sp[len(ap):], cn0))
+                    elif cn0["k"] in ("Member",) or (cn0["k"] == "Unary" and cn0["op"] == "!"):
+                        sp = access_path(cn0 if cn0["k"] == "Member" else cn0["ch"][0])
+                        if sp and sp != ap and sp.startswith(ap + "."):
+                            guards.append((ai, sp[len(ap):], cn0))
+            if not guards:
+                continue
+            n += 1
+            ai, suffix, g = guards[0]
+            own = f.params[ai]["d"] + suffix
+            marks = []
+            for x in f.walk():
+                if x["k"] in ("Assign", "CompoundAssign") or (x["k"] == "Unary" and ("++" in x["op"] or "--" in x["op"])):
+                    if access_path(x["ch"][0]) == own:
+                        marks.append(x)
+            if not marks:
+                n -= 1
+                continue      # a structural test (kind of node), not a visited mark maintained by this function
+            cfg = f.cfg
+            dom = [m for m in marks if cfg.locate(m) is not None and cfg.dominates(cfg.locate(m), cfg.locate(c)) and cfg.locate(m) != cfg.locate(c)]
+            base = "R5|%s|%s|recursion-mark(%s)" % (f.relfile(), f.name, suffix.lstrip("."))
+            k0 = counters.get(base, 0)
+            counters[base] = k0 + 1
+            key = base if k0 == 0 else "%s#%d" % (base, k0)
+            res.add("R5.mark_before_descent", key, f.where(c), bool(dom),
+                    "`%s` is set on the function's own node before the guarded recursive call" % suffix.lstrip(".") if dom else
+                    "the recursive call is guarded by `%s` on the node to visit, but the function does not set `%s` on its own node "
+                    "before descending: a cycle in the graph recurses until the stack overflows" % (expr_str(g), suffix.lstrip(".")))
+    res.floor("R5.mark_before_descent", "field-guarded recursive descents", n, 1)
+
+
 def run(prog, res, tier):
     reachable, keys = memsafe.reach(prog, CFG)
     res.info["reachable_functions"] = len(reachable)
@@ -181,3 +297,21 @@ def run(prog, res, tier):
     res.floor("E2.bounded_write", "library writers into fixed arrays", ns.get("lib", 0), 100)
     r1_cursors(prog, res)
     r2_escape_then_free(prog, res)
+    r5_recursion_marks(prog, res)
+    # L* (identifier length for which every assumption-discharged write is safe) must not shrink
+    floor = CFG.get("lstar_floor")
+    if floor is not None:
+        cur = lstar
+        res.add("E2.identifier_length_floor", "E2|L*", "-", cur >= floor,
+                "every identifier-driven write is safe for names up to L* = %s bytes (reference %s)" % (cur, floor) if cur >= floor else
+                "L* dropped from %s to %s: a name buffer was shrunk or text was added" % (floor, cur),
+                assume="schema identifiers are at most %s bytes long" % cur)
+    n_assume = len([o for o in res.obs if o.rule == "E2.bounded_write" and o.ok and o.assume and "identifier" in (o.assume or "")])
+    res.add("E2.identifiers_unbounded", "E2|identifier-length-assumption", "-", n_assume == 0,
+            "no write depends on a bound for identifier lengths" if n_assume == 0 else
+            "%d writes into fixed buffers are safe only for identifiers of at most %s bytes, but EXPRESS puts no bound on identifier "
+            "length: a valid schema with a longer name overflows a generator buffer" % (n_assume, lstar), {"sites": n_assume, "L*": lstar})
+    if os.environ.get("SCV_FREEZE") == "C06":
+        json.dump({"comment": "reference classification of every E2 site of the EXPRESS tools on the pinned tree (regression reference)",
+                   "lstar_floor": (None if lstar == float("inf") else int(lstar)), "sites": res.e2_site_table},
+                  open(_T, "w"), indent=0, sort_keys=True)
